@@ -606,18 +606,41 @@ fn c08_run_lengths(builts: &[Built], acc: &mut Acc) {
 /// typed traces whose frames carry a parameter list instead of a line (`StackFrame::with_parameters`): a frame that
 /// resolves is replaced by the entries with that parameter list (R10), any other frame is kept unchanged -
 /// including its parameter list, read through the accessor
-/// typed traces over mapping M5: two frames at lines L, L+1 for every L in 0..=90 (the lines that resolve through the
-/// enclosing entry only are among them)
-fn c08_sorted_run(builts: &[Built], acc: &mut Acc) {
-    let Some(b) = builts.iter().find(|b| b.label.starts_with("M5")) else { return };
-    let mut ab = Aligned::new(&[]);
-    with_both(b, &mut ab, |m, c| {
-        for l in 0..=90usize {
-            let t = OTrace { exception: Some(("run".to_string(), Some("boom".to_string()))), frames: vec![("run".to_string(), "s".to_string(), l, Some("F.java".to_string())), ("run".to_string(), "s".to_string(), l + 1, Some("F.java".to_string()))], cause: None };
-            check_typed(b, &t, true, m, c, acc);
-            acc.count("sorted-run typed traces", 1);
+/// sorted-run mappings: one method with n ascending disjoint ranges (entry i: lines 4i+1..4i+2) and one range that
+/// encloses the next three, inserted at position p; label "SR:<n>:<p>"
+fn sorted_run_built(n: usize, p: usize) -> Built {
+    let mut v = vec![class("s.Run", "run")];
+    for i in 0..=n {
+        if i == p {
+            let p4 = 4 * p as u64;
+            v.push(method(Some((p4.max(1), p4 + 14)), None, "odd", "", Orig::SE(7000, 7014), "s"));
         }
-    });
+        if i < n {
+            let b = 4 * i as u64;
+            v.push(method(Some((b + 1, b + 2)), None, leak(&format!("o{}", i)), "", Orig::SE(1000 + b, 1001 + b), "s"));
+        }
+    }
+    let bytes = print_file(&v, Term::Lf);
+    let model = Model::fold(&v);
+    Built { label: leak(&format!("SR:{}:{}", n, p)), lines: v, bytes, model, param_mapper: p % 2 == 1 }
+}
+
+/// typed traces over the sorted-run mappings (n = 16, 32; the enclosing range at every position): two frames at lines
+/// L, L+1 for every L in 0..=4n+20 (the lines that resolve through the enclosing entry only are among them)
+fn c08_sorted_run(_builts: &[Built], acc: &mut Acc) {
+    for n in [16usize, 32] {
+        for p in 0..=n {
+            let b = sorted_run_built(n, p);
+            let mut ab = Aligned::new(&[]);
+            with_both(&b, &mut ab, |m, c| {
+                for l in 0..=4 * n + 20 {
+                    let t = OTrace { exception: Some(("run".to_string(), Some("boom".to_string()))), frames: vec![("run".to_string(), "s".to_string(), l, Some("F.java".to_string())), ("run".to_string(), "s".to_string(), l + 1, Some("F.java".to_string()))], cause: None };
+                    check_typed(&b, &t, true, m, c, acc);
+                    acc.count("sorted-run typed traces", 1);
+                }
+            });
+        }
+    }
 }
 
 fn c08_param_frames(builts: &[Built], acc: &mut Acc) {
@@ -787,7 +810,7 @@ pub fn run_c08(tier: Tier) -> i32 {
         prop: "C08",
         tier,
         level: "model_checking",
-        rule: format!("every typed trace with a top level from {} levels (exception absent / known / unknown x message / none; 0..2 frames over 8 frame kinds: resolving to 2 frames, unknown method, unknown class, entry without lines, known method with a line outside every range, two class names with a module prefix containing '/', a frame resolving to 40 frames) and cause chains of depth 0..={} (first cause level: {}; deeper levels: {} ) x 2 mappings x {{mapper, cache}}; plus typed traces of 1..2 frames built with StackFrame::with_parameters over 21 (class, method, parameter list) triples (incl. names and parameter strings in prefix relation with a '$' continuation) (a resolving frame is replaced by the entries with that parameter list, any other is kept unchanged including its parameter list; the mapper without the index keeps all or resolves likewise) on mapper / mapper-with-index / cache; plus long traces (99..1001 unresolved frames followed by resolving ones, frames that differ only in their file); plus two-frame traces at every line 0..=90 of a method with 20 ascending ranges and one enclosing range; oracle R13 (same depth, every throwable remapped-or-identical, every frame expanded-or-identical, order kept) and, for every trace, printed typed result == text API on the printed input. distinct = distinct expected traces; non-trivial = expected != input", nlevels, max_depth, if t { "all levels with an exception" } else { "levels with an exception and <= 1 frame" }, if t { "depth 2: the first 40 levels with an exception, depth 3: the 8-level pool {known, unknown} x {no frame, resolving, '/'-class, 40-deep}; plus depth-4 chains: first level <= 1 frame, then the 8-level pool" } else { "the 8-level pool {known, unknown} x {no frame, resolving, '/'-class, 40-deep}" }),
+        rule: format!("every typed trace with a top level from {} levels (exception absent / known / unknown x message / none; 0..2 frames over 8 frame kinds: resolving to 2 frames, unknown method, unknown class, entry without lines, known method with a line outside every range, two class names with a module prefix containing '/', a frame resolving to 40 frames) and cause chains of depth 0..={} (first cause level: {}; deeper levels: {} ) x 2 mappings x {{mapper, cache}}; plus typed traces of 1..2 frames built with StackFrame::with_parameters over 21 (class, method, parameter list) triples (incl. names and parameter strings in prefix relation with a '$' continuation) (a resolving frame is replaced by the entries with that parameter list, any other is kept unchanged including its parameter list; the mapper without the index keeps all or resolves likewise) on mapper / mapper-with-index / cache; plus long traces (99..1001 unresolved frames followed by resolving ones, frames that differ only in their file); plus two-frame traces at every line of a method with 16 / 32 ascending ranges and one enclosing range at every position; oracle R13 (same depth, every throwable remapped-or-identical, every frame expanded-or-identical, order kept) and, for every trace, printed typed result == text API on the printed input. distinct = distinct expected traces; non-trivial = expected != input", nlevels, max_depth, if t { "all levels with an exception" } else { "levels with an exception and <= 1 frame" }, if t { "depth 2: the first 40 levels with an exception, depth 3: the 8-level pool {known, unknown} x {no frame, resolving, '/'-class, 40-deep}; plus depth-4 chains: first level <= 1 frame, then the 8-level pool" } else { "the 8-level pool {known, unknown} x {no frame, resolving, '/'-class, 40-deep}" }),
         bounds: json!({"top_levels": nlevels, "max_cause_depth": max_depth, "throwables": THROWABLES.iter().map(|t| format!("{:?}", t)).collect::<Vec<_>>(), "frames": FRAMES.iter().map(|f| format!("{:?}", f)).collect::<Vec<_>>()}),
         assumptions: vec!["canonical printed form: frames carry a file, cause levels carry an exception, the top level has an exception or a frame".into()],
         trusted_base: vec!["rustc/std".into(), "reference model pgmc/src/model.rs + model_typed in pgmc/src/props/e3.rs".into()],
@@ -804,6 +827,15 @@ pub fn recheck_typed(case: &Value) -> Vec<String> {
     }
     let label = case["mapping"].as_str().unwrap_or("");
     let t = otrace_from_json(&case["trace"]);
+    if let Some(rest) = label.strip_prefix("SR:") {
+        let mut it = rest.split(':').filter_map(|x| x.parse::<usize>().ok());
+        if let (Some(n), Some(p)) = (it.next(), it.next()) {
+            let b = sorted_run_built(n, p);
+            let mut ab = Aligned::new(&[]);
+            with_both(&b, &mut ab, |m, c| check_typed(&b, &t, case["canonical"].as_bool().unwrap_or(true), m, c, &mut acc));
+        }
+        return acc.violations.keys().cloned().collect();
+    }
     for b in &builts {
         if b.label == label {
             let mut ab = Aligned::new(&[]);
